@@ -722,6 +722,11 @@ func (runInfo *runInfoStruct) invokeMakeExpr(expr *ast.MakeExpr) {
 			runInfo.rv = nilValue
 			return
 		}
+		runInfo.rv = nilValue
+		if !runInfo.options.Debug {
+			// captures panic: the runtime refuses sizes that are out of range
+			defer recoverFunc(runInfo)
+		}
 		runInfo.rv = reflect.MakeSlice(t, aLen, cap)
 		return
 	case ast.TypeChan:
@@ -738,6 +743,11 @@ func (runInfo *runInfoStruct) invokeMakeExpr(expr *ast.MakeExpr) {
 			runInfo.err = newStringError(expr, "make chan buffer size must not be negative")
 			runInfo.rv = nilValue
 			return
+		}
+		runInfo.rv = nilValue
+		if !runInfo.options.Debug {
+			// captures panic: the runtime refuses sizes that are out of range
+			defer recoverFunc(runInfo)
 		}
 		runInfo.rv = reflect.MakeChan(t, aLen)
 		return
